@@ -268,6 +268,30 @@ func checkC09(c Node) Verdict {
 		}
 		v.Nontrivial = want != nil
 	}
+	// a second evaluation of the same text (the library keeps parsed selectors by text): the same answer
+	got2, err2, pan2 := execReader(doc, text)
+	v.Execs++
+	if pan2 != nil {
+		return fail("panic", v.SQL, append(sig, "again"), "second evaluation: panic: %v", pan2)
+	}
+	if (err == nil) != (err2 == nil) || (err == nil && !Equal(got2, got)) {
+		return fail("result", v.SQL, append(sig, "again"), "first evaluation: %s (err %v); second: %s (err %v)", Canon(got), err, Canon(got2), err2)
+	}
+	// ... also when a continuation that cannot be parsed follows (an index no array has): an error, every time
+	bad := text + "::zz[99999999999999999999]"
+	for i := 0; i < 2; i++ {
+		g, e, p := execReader(doc, bad)
+		v.Execs++
+		if p != nil {
+			return fail("panic", "ExecReader(doc, "+fmt.Sprintf("%q", bad)+")", append(sig, "again"), "evaluation %d: panic: %v", i+1, p)
+		}
+		if e == nil {
+			return fail("noerror", "ExecReader(doc, "+fmt.Sprintf("%q", bad)+")", append(sig, "again"), "evaluation %d of a selector whose last step indexes beyond any array returned %s", i+1, Canon(g))
+		}
+	}
+	if !Equal(doc, pristine) {
+		return fail("docmut", v.SQL, sig, "the document was modified: %s", Canon(doc))
+	}
 	// the same selector as a FROM path of a query (New evaluates it outside exec's recover)
 	if !wantErr && res["t"] != "any" {
 		if want, ok := FromTagged(res).([]any); ok {
